@@ -35,6 +35,16 @@ def run(chk, tier, proof_ok):
     f = f + f2
     cov = chk.coverage
     cov['caller_ladder'] = st2
+    if broken and not f:
+        # an obligation or the correspondence broke and the kernel / caller-ladder searches are quiet: also the
+        # ladders a chain can get by OTHER routes (dynamical annealer, a state with another ladder loaded into
+        # it) with every sweep replayed against the ladder in force (the C17 searches, read for C03: a sweep
+        # decided with other betas than the levels sample at is not the exchange the property describes)
+        lf, lst = realsearch.ladder_findings(chk.seed * 29 + 6, full=True)
+        rf, nl = realsearch.ladder_state_roundtrip_findings(chk.seed * 41 + 5, 40)
+        keep = ('swap-ratio-not-from-current-ladder', 'level-beta-differs-from-ladder', 'state-roundtrip-ladder-incoherent')
+        f = f + [x for x in lf + rf if x[0] in keep]
+        cov['ladder_routes_after_breakage'] = dict(lst, roundtrips=nl)
     cov.setdefault('correspondence', {})['scripted-sweep'] = dict(
         sstats, divergences=len(sdivs), real_code_exceptions=len(serrs))
     cov['search'] = {
